@@ -17,7 +17,7 @@ META = {
 }
 SPEC = "specs/AsyncMachine"
 PKG = "pkg/protocol/state"
-ALL = ["Exec", "HandOff", "InitiateOk", "InitiateErr", "TickCheck", "TickerStop", "Transition", "NextFailed", "InitFailed",
+ALL = ["Exec", "HandOffBegin", "HandOffEnd", "InitiateOk", "InitiateErr", "TickCheck", "TickerStop", "Transition", "NextFailed", "InitFailed",
        "ExitCancelled", "Cancel", "DoArriveNew", "DoArriveDup", "DoArriveForeign"]
 
 
@@ -89,11 +89,15 @@ def pipeline(ctx, T, bg, orig):
             acts[s["a"]] = acts.get(s["a"], 0) + 1
         k = b["steps"][-1]["st"]["outcome"]["kind"]
         kinds[k] = kinds.get(k, 0) + 1
-    missing = [a for a in ["Exec", "Arrive", "HandOff", "InitiateOk", "InitiateErr", "TickCheck", "Transition", "NextFailed",
+    missing = [a for a in ["Exec", "Arrive", "HandOffBegin", "HandOffEnd", "InitiateOk", "InitiateErr", "TickCheck", "Transition", "NextFailed",
                            "InitFailed", "Cancel", "ExitCancelled"] if not acts.get(a)]
     missing += [k for k in ["final", "initErr", "nextErr", "ctxErr"] if not kinds.get(k)]
     if missing:
         ctx.broken("generated behaviours never show: %s" % missing)
+    ncir = sum(1 for b in beh if any(s["a"] == "Cancel" and s["st"]["lp"] == "receiving" for s in b["steps"]))
+    if ncir < ctx.pick(5, 40):
+        ctx.broken("only %d generated behaviours cancel the context while the loop is inside Receive" % ncir)
+    ctx.note("%d behaviours cancel the context while the loop is inside Receive; each is replayed 20 times" % ncir)
     ctx.note("replay set: %d behaviours, %d steps, outcomes %s" % (len(beh), sum(acts.values()), kinds))
     ctx.extra["replay_actions"] = acts
     go = ctx.gotest(PKG, "^TestVerif_C15_(Replay|Free)$", ["c15_test.go"], inputs={"behaviours.ndjson": beh},
